@@ -10,7 +10,7 @@ PLAN = {
     "C01": ["serverconn", "router", "tlspump", "logfault"],
     "C04": ["serverconn", "chain"],
     "C05": ["c05", "chain", "assembly"],
-    "C06": ["tlspump", "live", "logfault"],
+    "C06": ["tlspump", "live", "logfault", "slowhandler"],
     "C07": ["serverconn", "tlspump"],
     "C15": ["serverconn", "tlspump", "live"],
     "C11": ["clientconn", "c03"],
